@@ -104,6 +104,8 @@ def drive_corrupt(item):
 
 def field_value(cls, w, x):
   top = (1 << (8 * w)) - 1
+  if cls[0] == "s" and cls[1:].isdigit():        # selector value "s<n>"
+    return int(cls[1:]) & top
   return {"zero": 0, "one": 1, "hi": 1 << (8 * w - 1), "max": top,
           "inc": (x + 1) & top, "dec": (x - 1) & top}[cls]
 
